@@ -1,7 +1,10 @@
 import SpoxModel.Lemmas.Emit
 import SpoxModel.Model.Custom
 import SpoxModel.Model.CustomInline
+import SpoxModel.Generated.AdaptAttrInventory
 import SpoxModel.Props.C04
+import SpoxModel.Props.C01
+import SpoxModel.Lemmas.Prog
 /-!
 # C18 — user-defined operators are emitted verbatim and compose like standard ones
 
@@ -358,6 +361,84 @@ theorem custom_composes (p : KProg) (hwf : BuildAlg.WF p.erase) (b : BuildAlg.Bu
   obtain ⟨h1, h2⟩ := C04.emitted_once p.erase hwf b tr h n hna
   exact ⟨h1, h2, fun c hc' => C04.least_enclosing p.erase hwf b tr h (.node n) c hc'⟩
 
+/-! ## composition, the C01 half: a user-defined operator is just another operator of the semantics
+
+`Model/Prog.lean` gives a program its meaning relative to an arbitrary operator semantics
+`Sem.op : label → inputs → bodies → outputs`, and C01's translation validation (`valid_sound`) holds
+for *every* `Sem`. A user-defined operator adds one label whose meaning is whatever the user's
+runtime kernel computes (`f`, a function of the node's inputs — a plain `Node` has no bodies);
+nothing else changes. Hence user-defined operators inherit C01's build soundness verbatim. -/
+
+section c01
+open Prog
+variable {Val : Type} [Inhabited Val]
+
+/-- the semantics extended by a user-defined operator with label `c` and kernel `f` -/
+def withCustom (S : Sem Val) (c : Nat) (f : List (Option Val) → List Val) : Sem Val :=
+  { op := fun l ins bodies => if l = c then f ins else S.op l ins bodies }
+
+/-- **custom_build_sound.** For every semantics of the standard operators, every user-defined
+    operator (label `c`, *any* kernel `f`), every well-formed program — custom nodes anywhere: top
+    level, inside bodies, feeding or fed by control flow — and every emission the validator accepts:
+    running the emitted (nested) graph computes exactly the program's dataflow. -/
+theorem custom_build_sound (S : Sem Val) (c : Nat) (f : List (Option Val) → List Val)
+    (prog : List PNode) (hwf : WF prog) (e : EGraph) (main : PGraph)
+    (hv : validG prog e main [] = true) (b : Nat → Val) (vals : List Val) :
+    evalG (withCustom S c f) prog e (fun _ => none) vals
+      = some (denoteG (withCustom S c f) prog b main vals) :=
+  C01.valid_sound (withCustom S c f) prog hwf e main hv b vals
+
+/-- … inside bodies too (the emission of a body, run where its owner sits) -/
+theorem custom_build_sound_nested (S : Sem Val) (c : Nat) (f : List (Option Val) → List Val)
+    (prog : List PNode) (hwf : WF prog) (g : EGraph) (pg : PGraph) (env : Env Val) (vis : List Nat)
+    (b : Nat → Val) (hv : validG prog g pg vis = true)
+    (henv : EnvOK (withCustom S c f) prog env vis b) (vals : List Val) :
+    evalG (withCustom S c f) prog g env vals = some (denoteG (withCustom S c f) prog b pg vals) :=
+  C01.valid_sound_nested (withCustom S c f) prog hwf g pg env vis b hv henv vals
+
+/-- **custom_node_value.** In that dataflow a custom node's outputs are its kernel applied to the
+    values of its inputs in declared order (`none` for an absent optional) — nothing else … -/
+theorem custom_node_value (S : Sem Val) (c : Nat) (f : List (Option Val) → List Val)
+    (prog : List PNode) (hwf : WF prog) (b : Nat → Val) (k : Nat) (n : PNode)
+    (hk : nodeAt prog k = some n) (hc : n.kind = Kind.op c) :
+    valAt (table (withCustom S c f) prog b) k
+      = f (n.inputs.map (getOpt (table (withCustom S c f) prog b))) := by
+  rw [table_unfold _ prog hwf b k n hk]
+  simp [nodeVal, hc, Kind.label?, withCustom]
+
+/-- … and every other operator keeps its own meaning next to it. -/
+theorem standard_node_value (S : Sem Val) (c : Nat) (f : List (Option Val) → List Val)
+    (prog : List PNode) (hwf : WF prog) (b : Nat → Val) (k : Nat) (n : PNode) (l : Nat)
+    (hk : nodeAt prog k = some n) (hl : n.kind.label? = some l) (hne : l ≠ c) :
+    valAt (table (withCustom S c f) prog b) k
+      = S.op l (n.inputs.map (getOpt (table (withCustom S c f) prog b)))
+          (n.subs.map fun g => fun vals =>
+            g.results.map (getVar (table (withCustom S c f) prog (updArgs b g.args vals)))) := by
+  rw [table_unfold _ prog hwf b k n hk]
+  simp [nodeVal, hl, withCustom, hne]
+
+/-- non-vacuity: `If(c, then: MyOp(x), else: x)` with the custom node emitted inside the then-branch;
+    kernel `MyOp(v) = 3·v` next to the example semantics of C01 -/
+def customInIf : List PNode :=
+  [ { kind := .op 2, inputs := [some ⟨1, 0⟩],
+      subs := [{ args := [], results := [⟨2, 0⟩] }, { args := [], results := [⟨0, 0⟩] }] },
+    { kind := .op 99, inputs := [some ⟨0, 0⟩], subs := [] },
+    { kind := .arg, inputs := [], subs := [] },
+    { kind := .arg, inputs := [], subs := [] } ]
+
+def customInIfEmission : EGraph :=
+  .mk [0, 1] [.mk 3 [.mk [] [.mk 2 []] [⟨2, 0⟩], .mk [] [] [⟨0, 0⟩]]] [⟨3, 0⟩]
+
+example : wfCheck customInIf = true ∧
+    validG customInIf customInIfEmission { args := [0, 1], results := [⟨3, 0⟩] } [] = true := by decide
+
+example : evalG (withCustom C01.exSem 99 fun ins => [3 * ((ins.getD 0 none).getD 0)]) customInIf
+      customInIfEmission (fun _ => none) [5, 1] = some [15] ∧
+    evalG (withCustom C01.exSem 99 fun ins => [3 * ((ins.getD 0 none).getD 0)]) customInIf
+      customInIfEmission (fun _ => none) [5, 0] = some [5] := by decide
+
+end c01
+
 /-! ## non-vacuity -/
 
 /-- `MyOp(a, None, c, rest=[r0, r1])`: inner *and* trailing absent optionals stay -/
@@ -446,6 +527,19 @@ example : CustomInline.decide { imports := [("", 12), ("my.domain", 2)], nodeDom
     = .convert 12 19 := by decide
 example : CustomInline.decide { imports := [("", 12)], nodeDomains := [""] } 19 = .convert 12 19 := by decide
 example : CustomInline.decide { imports := [("", 12), ("my.domain", 2)], nodeDomains := ["my.domain"] } 19 = .keep := by decide
+
+/-- **adapt_exits_covered** (tie G). The exits of `adapt_inline`, as read from `src/spox/_adapt.py` on this
+    run, are exactly the three branches `CustomInline.decide` has: an added early exit — whatever its
+    condition, whatever inputs the oracles generate — breaks this obligation. -/
+theorem adapt_exits_covered :
+    Generated.AdaptAttrInventory.adaptInlineExits = CustomInline.coveredExits := by decide +kernel
+
+/-- **adapt_functions_covered** (tie G). `_adapt.py` as a whole: its functions and the (kind, guards) of
+    every exit of each. -/
+theorem adapt_functions_covered :
+    Generated.AdaptAttrInventory.adaptFunctions.map
+      (fun f => (f.1, f.2.2.1.map (fun e => (e.1, e.2.2)))) = CustomInline.coveredFunctions := by
+  decide +kernel
 
 end adapt
 
